@@ -13,6 +13,10 @@ theorem kraus_check_source_as_expected : Generated.krausCheckSource = TablesSpec
 /-- every `contract` method of the source tests the purity and picks the eigenvalue with the same `tol` -/
 theorem contract_sites_consistent : Generated.contractSites.all TablesSpec.siteConsistent = true := by
   rw [contract_sites_as_expected]; decide
+theorem guards_as_expected : Generated.guardTable = TablesSpec.expectedGuards := by rfl
+/-- every envelope method that takes operands rejects non-members, comparing by identity -/
+theorem envelope_membership_guarded : TablesSpec.envelopeMembershipGuarded Generated.guardTable = true := by
+  rw [guards_as_expected]; decide +kernel
 
 end PW.Props.Tables
 #print axioms PW.Props.Tables.hardcoded_einsum_as_expected
@@ -22,3 +26,5 @@ end PW.Props.Tables
 #print axioms PW.Props.Tables.contract_sites_as_expected
 #print axioms PW.Props.Tables.kraus_check_source_as_expected
 #print axioms PW.Props.Tables.contract_sites_consistent
+#print axioms PW.Props.Tables.guards_as_expected
+#print axioms PW.Props.Tables.envelope_membership_guarded
